@@ -279,6 +279,25 @@ fn main() {
         })
         .unwrap();
     let (hist, va, term, hash, shown, checked, sw) = h.join().expect("game thread");
+    // the same history discarded while a panic unwinds (the state is a local of the panicking frame):
+    // dropping must not take another route then
+    std::panic::set_hook(Box::new(|_| {}));
+    let h2 = std::thread::Builder::new()
+        .stack_size(2 * 1024 * 1024)
+        .spawn(move || {
+            let r = std::panic::catch_unwind(|| {
+                let (s, _) = play(turns);
+                let c = s.clone();
+                if c.move_number() > 0 {
+                    panic!("deliberate panic with a long history alive");
+                }
+                drop(s);
+            });
+            r.is_err()
+        })
+        .unwrap();
+    let unwound = h2.join().expect("unwinding thread");
+    assert!(unwound);
     println!(
         "{{\"turns\": {}, \"history_len\": {}, \"valid_actions\": {}, \"terminal\": {}, \"hash\": \"{:016x}\", \"printed_len\": {}, \"offered_checks\": {}, \"swept_states\": {}, \"swept_mid_push\": {}, \"swept_step3\": {}}}",
         turns, hist, va, term, hash, shown, checked, sw.0, sw.1, sw.2
